@@ -56,6 +56,10 @@ RULE = ('Data and Interest packets built by make_data / make_interest from rando
         'moving the Length of MetaInfo across 253; present-but-empty MetaInfo, Content and ApplicationParameters; long '
         'KeyLocator names for the keyed signers; a signer writing KeyDigest / SignatureNonce / Time / SeqNum; RSA-4096 in the '
         'thorough tier. The oracle also judges the InterestParam / MetaInfo objects parse_interest / parse_data return. '
+        'Re-entrant signers (12% of the signed cases): the signer builds 1..2 other packets with the library (make_data / '
+        'make_interest with another signer of another signature length or with the very same signer object, a certificate) '
+        'after it wrote its SignatureInfo, in the length pass, before / after it computed the signature - two encodings '
+        'interleaved; the outer packet is compared with the model, both are judged by the oracle. '
         'non-trivial = packet was built and has a payload or a signature; distinct = '
         'distinct generator inputs')
 LEVEL_TEXT = ('Lean 4 theorems about the model of make_data / make_interest: for every name, field combination, payload and '
@@ -81,7 +85,12 @@ DESIGN_REF = 'DESIGN.md section 7, C01'
 def cases(rng, tier):
     n = 700 if tier == 'quick' else 8000
     for _ in range(n):
-        yield PK.gen_data_case(rng, tier) if rng.random() < 0.5 else PK.gen_interest_case(rng, tier)
+        c = PK.gen_data_case(rng, tier) if rng.random() < 0.5 else PK.gen_interest_case(rng, tier)
+        if c['signer'][0] != 'none' and rng.random() < 0.12:
+            # the signer builds other packets (make_data / make_interest with another or with the same signer, a
+            # certificate) while this one is half done: two encodings interleaved
+            c['reenter'] = PK.rand_reenter(rng, tier, c)
+        yield c
 
 
 def shrink(case):
@@ -101,6 +110,15 @@ def shrink(case):
         for k in ('nonce', 'lifetime', 'hop_limit'):
             if p[k] is not None:
                 yield dict(case, param=dict(p, **{k: None}))
+    if case.get('reenter'):
+        yield {a: b for a, b in case.items() if a != 'reenter'}
+        if len(case['reenter']) > 1:
+            for i in range(len(case['reenter'])):
+                yield dict(case, reenter=case['reenter'][:i] + case['reenter'][i + 1:])
+        for i, sp in enumerate(case['reenter']):
+            if 'case' in sp:
+                for c2 in shrink(sp['case']):
+                    yield dict(case, reenter=case['reenter'][:i] + [dict(sp, case=c2)] + case['reenter'][i + 1:])
     for k in ('name_form', 'fh_form', 'key_name', 'payload_form', 'key_form', 'obj_form', 'pre', 'parse_form'):
         if case.get(k) is not None:
             yield {a: b for a, b in case.items() if a != k}
@@ -128,6 +146,21 @@ def _strict(case, wire):
 def run_impl(case):
     made = PK.make_packet(case)
     out = {'made': made}
+    # the packets the signer built while it was at work on this one: judged like any other packet
+    nested = []
+    for r in made.get('nested') or []:
+        m2 = r.get('made')
+        if m2 is not None and m2['made'][0] == 'ok':
+            c2 = case['reenter'][r['i']]['case']
+            w2 = bytes.fromhex(m2['made'][1])
+            p2 = PK.parse_packet(c2['pkt'], w2)
+            nested.append({'i': r['i'], 'made': m2['made'], 'strict': _strict(c2, w2),
+                           'parsed': {k: p2.get(k) for k in ('res', 'err', 'name', 'content', 'values', 'api', 'SV')}})
+        elif m2 is not None:
+            nested.append({'i': r['i'], 'made': m2['made']})
+    if 'nested' in made:
+        made['nested'] = [{'i': r['i'], 'at': r['at'], 'res': (r['made']['made'] if 'made' in r else r['cert'])[0]} for r in made['nested']]
+        out['nested'] = nested
     if made['made'][0] == 'ok':
         wire = bytes.fromhex(made['made'][1])
         out['parsed'] = PK.parse_packet(case['pkt'], wire, case.get('parse_form'))
@@ -214,6 +247,12 @@ def oracle(case, impl):
         return f"building a legal packet raised {m['made'][1]}" + \
             (f" (after an earlier call '{case['pre']}' with the same argument objects)" if case.get('pre') else '')
     r = _judge(case, m['made'][1], impl['parsed'], impl['strict'])
+    if r is not None and case.get('reenter'):
+        return r + ' (the signer built other packets while this one was being made: ' + _reenter_text(case) + ')'
+    if r is None and case.get('reenter'):
+        r = _judge_nested(case, impl)
+        if r is not None:
+            return r
     if r is None and case.get('pre') == 'same':
         f1 = m.get('first')
         if f1 is None or f1[0] != 'ok':
@@ -225,6 +264,28 @@ def oracle(case, impl):
     elif r is not None and case.get('pre'):
         return r + f" (after an earlier call '{case['pre']}' with the same argument objects)"
     return r
+
+
+def _reenter_text(case):
+    return ', '.join('%s at %s' % ('a certificate' if 'cert' in s else s['case']['pkt'] + (' with the same signer object' if s.get('same') else ''),
+                                   s['at']) for s in case['reenter'])
+
+
+def _judge_nested(case, impl):
+    """the packets built from inside the signer are packets built from a name, parameters / MetaInfo, payload and signer too"""
+    for n in impl.get('nested') or []:
+        spec = case['reenter'][n['i']]
+        c2 = spec['case']
+        what = f"{c2['pkt']} built from inside the signer of another packet (at {spec['at']}" + \
+            (', with the same signer object' if spec.get('same') else '') + '): '
+        if n['made'][0] == 'err':
+            if _expect_error(c2) == n['made'][1]:
+                continue
+            return what + f"building a legal packet raised {n['made'][1]}"
+        r = _judge(c2, n['made'][1], n['parsed'], n['strict'])
+        if r is not None:
+            return what + r
+    return None
 
 
 def _judge(case, wire_hex, p, strict):
@@ -337,6 +398,10 @@ def tags(case, impl):
     for k in ('payload_form', 'key_form', 'obj_form', 'pre', 'parse_form'):
         if case.get(k) is not None:
             t.append(f'{k}:{case[k]}')
+    for s in case.get('reenter') or []:
+        t.append('reenter:%s:%s' % (s['at'], 'cert' if 'cert' in s else s['case']['pkt'] + (',same-signer' if s.get('same') else '')))
+    for r in impl['made'].get('nested') or []:
+        t.append('nested-built:' + r['res'])
     if impl['made']['made'][0] == 'ok':
         n = len(impl['made']['made'][1]) // 2
         t.append('size:' + ('<253' if n < 253 else '253..259' if n < 260 else '<65536' if n < 65536 else '>=65536'))
